@@ -119,4 +119,22 @@ theorem C07_fragment_verbatim_preserved (e : Env) (fuel : Nat) (ctx : Ctx) (hctx
     verbText (best w 0 [⟨0, .brk, d.fam u⟩]) = (specVerb n).toList :=
   (routeM_expr e fuel ctx hctx n hx hq d k k' h u w).2.2.2.2
 
+/-- A mark on a **paragraph break** is inert (route M): the children of a `Markup` node are split into
+lines before any of them is converted, and every `Parbreak` becomes a line boundary there — whether it
+carries the `@typstyle off` mark or not.  So for children that are paragraph breaks (marked or unmarked)
+or nodes of the covered fragment, what is printed carries exactly what the children prescribe; in
+particular no white space of a marked paragraph break is emitted as verbatim text. -/
+theorem C07_mark_on_paragraph_break_is_inert (e : Env) (fuel : Nat) (ctx : Ctx) (cs : List ANode) (a : Attrs) (scope : Scope)
+    (hok : ∀ x ∈ cs, (x.kind = .parbreak ∧ ANode.tokensAreLeaves x = true) ∨
+      (inFrag x = true ∧ (x.kind = .space ∨ x.kind = .text ∨ isExpr x = true ∨ isCommentKind x.kind = true ∨ x.kind.isPlainToken = true))) :
+    Post (convMarkup e (knot e fuel) ctx (.inner .markup cs a) scope) (fun d => Carries d (specAllL cs)) :=
+  convMarkup_carries_parbreak e _ (knot_frag e fuel).1 ctx .markup cs a scope
+    (fun x hx => (hok x hx).elim (fun h => Or.inr h) (fun h => Or.inl ⟨inFrag_lex x h.1, fun _ => h.1, h.2⟩))
+
+/-- The hypotheses are met by a paragraph with a marked paragraph break in it. -/
+example : ∀ x ∈ [ANode.leaf .text "a" {}, ANode.leaf .parbreak "\n\n" { disabled := true }, ANode.leaf .text "b" {}],
+    (x.kind = .parbreak ∧ ANode.tokensAreLeaves x = true) ∨
+      (inFrag x = true ∧ (x.kind = .space ∨ x.kind = .text ∨ isExpr x = true ∨ isCommentKind x.kind = true ∨ x.kind.isPlainToken = true)) := by
+  decide
+
 end Typstyle
